@@ -75,6 +75,19 @@ def body_rule(ctx, prop, rule1, rule2, b):
                 fam.append((fa, s))
             if callee_of(t).startswith("core::Hypercore::") and "{closure" not in callee_of(t):
                 hcalls.append((fa, s))
+    # calls to other SharedCore operations acquire the mutex again
+    nested = []
+    mnames = set(m.name for m in shared_methods(ctx))
+    for fa in fas:
+        for s, t in fa.calls():
+            c = callee_of(t)
+            if (c in mnames or t.get("resolved") in mnames) and c != name:
+                nested.append((fa, s))
+            elif (t.get("callee") or "").startswith(("replication::CoreInfo::", "replication::CoreMethods::", "replication::ReplicationMethods::")):
+                nested.append((fa, s))
+    ctx.check(prop, rule1, "%s: no nested SharedCore operation" % short, not nested, "the body calls no other SharedCore method",
+              "%s calls another SharedCore operation (%s), i.e. acquires the mutex a second time: its result is computed outside the critical section of the Hypercore call" % (
+                  name, [callee_of(f.blocks[s].term).split("::")[-1] for f, s in nested]), [site_desc(f, s) for f, s in nested], key="%s|%s|%s|nested operation" % (prop, rule1, name))
     ok1 = len(locks) == 1 and not fam and len(hcalls) >= 1 and all(h[0] is locks[0][0] for h in hcalls)
     ctx.check(prop, rule1, "%s: exactly one lock acquisition site" % short, ok1, "lock x1, Hypercore call(s): %s" % [callee_of(f.blocks[s].term).split("::")[-1] for f, s in hcalls],
               "%s has %d lock() site(s), %d other acquisition(s), %d Hypercore call(s): the operation is not one critical section" % (name, len(locks), len(fam), len(hcalls)),
@@ -199,7 +212,7 @@ RULES = [r1, r3, r4]
 CONFIGS_THOROUGH = ["all"]
 CONTROLS = ["c15_double_lock", "c15_lock_in_loop"]
 EXPLANATION = ("C15 (a shared core is linearizable): decides, for each of the trait methods of SharedCore (floor 10), that its body has exactly one "
-               "self.0.lock().await site, outside any loop, whose completion dominates every Hypercore call of the body, with no try_lock / second acquisition and no other mutex user in the crate (R1); "
+               "self.0.lock().await site, outside any loop, whose completion dominates every Hypercore call of the body, with no try_lock / second acquisition, no call to another SharedCore operation and no other mutex user in the crate (R1); "
                "that the call's receiver is the guard of that very lock and the guard is neither dropped nor moved before the call (and, for async calls, its await) has completed (R2); "
                "that every method of CoreInfo / ReplicationMethods / CoreMethods has such an impl (R3); that every Hypercore method reaching storage or assigning self.* takes &mut self, "
                "RefCell::borrow_mut occurs only under &mut self, and the crate forbids unsafe code (R4). Thorough adds compile-fail witnesses (E0596) that &Hypercore cannot append.")
